@@ -404,6 +404,67 @@ fn stopx_inner(kind: &str, ctor: &str, tag: &str) -> String {
             let _ = std::fs::remove_file(format!("/tmp/ccp/{}-p", tag));
             out
         }
+        // datagrams from a peer WITHOUT a pathname (an unbound socket) are not attributable to any datapath: the receive call reports
+        // them as a failed read and the loop goes round again - polling the stop flag (round 6: they were retried inside recv, by a
+        // loop that never looks at the flag / by recursion that grows the stack with every such datagram). `burst`: thousands back to
+        // back, then a named peer's create + report must still be served; `steady`: one every 20 ms across the stop request.
+        "unixnoise" => {
+            let rname = format!("{}-r", tag);
+            let sock = match portus::ipc::unix::Socket::<Blocking>::new(&rname) {
+                Ok(s) => s,
+                Err(_) => return "RESX SOCKERR".into(),
+            };
+            let peer = match portus::ipc::unix::Socket::<Blocking>::new(&format!("{}-p", tag)) {
+                Ok(s) => s,
+                Err(_) => return "RESX SOCKERR".into(),
+            };
+            let anon = match std::os::unix::net::UnixDatagram::unbound() {
+                Ok(s) => s,
+                Err(_) => return "RESX SOCKERR".into(),
+            };
+            let h = match portus::RunBuilder::new(BackendBuilder { sock }).default_alg(AlgX).spawn_thread().run() {
+                Ok(h) => h,
+                Err(_) => return "RESX SPAWNERR".into(),
+            };
+            let to = std::path::PathBuf::from(format!("/tmp/ccp/{}", rname));
+            let _ = peer.send(&create(1), &to);
+            let stop_noise = Arc::new(AtomicBool::new(false));
+            let noise = {
+                let (to, stop_noise, burst) = (to.clone(), stop_noise.clone(), ctor == "burst");
+                std::thread::spawn(move || {
+                    let pkt = [7u8; 8];
+                    if burst {
+                        let mut sent = 0;
+                        while sent < 6000 && !stop_noise.load(Ordering::SeqCst) {
+                            match anon.send_to(&pkt, &to) {
+                                Ok(_) => sent += 1,
+                                Err(_) => std::thread::sleep(Duration::from_micros(200)), // receiver queue full: let it drain
+                            }
+                        }
+                    } else {
+                        while !stop_noise.load(Ordering::SeqCst) {
+                            let _ = anon.send_to(&pkt, &to);
+                            std::thread::sleep(Duration::from_millis(20));
+                        }
+                    }
+                })
+            };
+            let mut noise = Some(noise);
+            if ctor == "burst" {
+                if let Some(n) = noise.take() {
+                    let _ = n.join();
+                }
+            }
+            let _ = peer.send(&measure(1, 0, &[1, 2]), &to);
+            let out = finish(h, 400);
+            stop_noise.store(true, Ordering::SeqCst);
+            if let Some(n) = noise.take() {
+                let _ = n.join();
+            }
+            let _ = std::fs::remove_file(format!("/tmp/ccp/{}", rname));
+            let _ = std::fs::remove_file(format!("/tmp/ccp/{}-p", tag));
+            out
+        }
         "chan" => {
             let (to_ccp, from_dp) = crossbeam::channel::unbounded::<Vec<u8>>();
             let (to_dp, _from_ccp) = crossbeam::channel::unbounded::<Vec<u8>>();
